@@ -43,6 +43,8 @@ def run(repo, rep):
     rep.run_borrowed(_c02, {"C02-f": "C12-j"}, repo, only_sites=("propose_weight_buffering", "encode_weight_and_scale_tensor"))
     rep.clause("C12-p", "storage sized from the tensor shape is what every operator writes: the brick format is refused when an operator's view differs from the tensor shape or a DMA copy touches the tensor [rule shared with C02-w]")
     rep.run_borrowed(_c02, {"C02-w": "C12-p"}, repo)
+    rep.clause("C12-q", "what an NPU TRANSPOSE writes stays inside its OFM: the strides whose H and W components are exchanged are computed from the OFM's real shape (operator shape with width and height exchanged)")
+    rule_transpose_ofm_strides(repo, rep)
     from . import c08 as _c08
 
     # the slice size recorded for the double buffers covers all cores (borrowed from the original lender: nested borrows are not replayed)
@@ -446,3 +448,33 @@ def rule_writer_order(repo, rep):
         ok = any(i.endswith(".passes") for i in iters) and any(i.endswith(".ops") for i in iters)
         rep.check(ok, "C12-o", site, f"`{norm(c)}` inside `for .. in sg.passes: for .. in ps.ops` (loops over {iters})",
                   f"the operator list is filled from {iters}: a traversal other than the pass order; with two independent branches the offsets (planned for the pass order) put a tensor under one that is still live")
+
+
+def rule_transpose_ofm_strides(repo, rep):
+    """(q) an NPU TRANSPOSE writes its OFM through strides with H and W exchanged. The operator's shape at that point is still the IFM's
+    (fixup_transpose), so the strides that are exchanged must be computed from the OFM's real shape - batch, *width, height*, depth of the
+    operator shape - before the swap. Strides taken from the un-swapped shape give rows of the wrong pitch: for W > H the writes run past
+    the tensor (2x8x16: 928 bytes into a 256-byte tensor)."""
+    m = repo.mod("high_level_command_to_npu_op")
+    fn = m.func("create_feature_map")
+    site = "ethosu/vela/high_level_command_to_npu_op.py:create_feature_map"
+    branches = [i for i in ast.walk(fn) if isinstance(i, ast.If) and "Op.Transpose" in str(norm(i.test))]
+    if len(branches) != 1:
+        raise AnalysisError(f"create_feature_map: {len(branches)} transpose branches")
+    br = branches[0]
+    swaps = [s for s in br.body if isinstance(s, ast.Assign) and isinstance(s.targets[0], ast.Tuple) and "strides[" in str(norm(s.targets[0]))]
+    gets = [s for s in br.body if isinstance(s, ast.Assign) and str(norm(s.targets[0])) == "strides" and isinstance(s.value, ast.Call) and (call_name(s.value) or "").endswith("get_strides")]
+    ok, why = False, "the branch does not compute `strides` itself"
+    if swaps and gets and gets[-1].lineno < swaps[0].lineno and gets[-1].value.args:
+        arg = gets[-1].value.args[0]
+        defs = [s.value for s in br.body if isinstance(s, ast.Assign) and isinstance(arg, ast.Name) and str(norm(s.targets[0])) == arg.id]
+        shp = defs[-1] if defs else arg
+        txt = str(norm(shp))
+        mm = re.match(r"^Shape4D\(\[(\w+)\.batch, (\w+)\.width, (\w+)\.height, (\w+)\.depth\]\)$", txt)
+        swapped_calls = re.search(r"with_height\((\w+)\.width\)", txt) and re.search(r"with_width\((\w+)\.height\)", txt)
+        ok = (bool(mm) and len(set(mm.groups())) == 1) or bool(swapped_calls) or bool(re.match(r"^(\w+)\.with_hw\(\1\.width, \1\.height\)$", txt))
+        why = f"`strides` is computed from `{txt[:80]}`, not from the operator shape with width and height exchanged"
+        if not ok and not isinstance(shp, ast.Name):
+            raise AnalysisError(f"create_feature_map: shape expression `{txt[:80]}` of the TRANSPOSE branch not recognised")
+    rep.check(ok, "C12-q", site, "the strides exchanged for a TRANSPOSE are computed from the OFM's real shape (batch, width, height, depth of the operator shape)",
+              why + ": row pitch of the IFM shape is used for the OFM - for W > H the stream writes beyond the tensor and the reported arena")
